@@ -106,6 +106,18 @@ R6 = {
  'C14-writev-single-alias':'caught by C10 (snapshot semantics; fourth delivery of this mechanism)',
  'C20-trigger-exception-from-context':'the exception handler always sat behind the idle handler; `ZZ_C20_PanicRouting` puts it in front',
 }
+R7 = {
+ 'C01-recycle-loopvar-alias-r7':'caught by C10 (the recycled buffers alias one pool entry; fifth delivery of this mechanism)',
+ 'C02-hoisted-batch-buffers':'first run ended inconclusive (memory budget, exit 2): the sender spun over an ever growing vector and the mock transport counted every buffer, so no state repeated; the `buffers` counter saturates now like the other mock counters and the spin is reported as a livelock in 0.2 s',
+ 'C03-check-per-handler':'a call that inserts several handlers was only made with handlers that are all acceptable or all refused; `AddLast/AddFirst/AddHandler(0, good, bad)` must now be refused as a whole (nothing inserted, pipeline unchanged)',
+ 'C03-read-next-memo':'handlers were only inserted before the first event; `ZZ_C03_LateInsert`: a handler inserted after events have passed (at the end, at the front, at an index) sees every later event in its place (`zzInboundTrace`)',
+ 'C06-close-grace-shortened':'Close behind a stalled sender was released by the harness at once; close kind 8 keeps the sender stalled and asserts that the bounded wait lasts the documented grace period on the model clock (`vrt.Slept() >= 1s`) before it gives up',
+ 'C07-sender-failure-as-exception-r7':'the injected transport fault was one error class; `what/10` selects a plain error or a timeout net.Error, each must close the channel with exactly that error and reach the handlers once as the inactive cause, not as an exception',
+ 'C09-writev-flush-unlocked-r7':'caught by C12 (race inside the buffered transport; third delivery of this mechanism)',
+ 'C12-readfrom-recycle':'caught by C10 (a buffer goes back to the pool while its bytes are still queued); the race is between pool users, which C12 watches only under its own harnesses',
+ 'C16-json-shared-encoder':'first run ended inconclusive (exit 2, engine fault on `json.NewEncoder`): `(*json.Encoder).Encode` is now stubbed on top of the Marshal contract (marshalled bytes + newline in one Write to the encoder\'s writer), and `ZZ_C16_JSON` sends a second message through the same codec instance and looks at the first output again',
+ 'C20-write-rearm-after-inactive':'nothing passed the idle handler after inactive; variant 4 lets a read / a write pass it afterwards (a farewell written from an inactive handler): no timer may be armed and no idle event may follow',
+}
 rows = []
 for d in sorted(glob.glob('/verif/seeded/*/')):
     m = json.load(open(d + 'meta.json'))
@@ -122,4 +134,4 @@ def table(rnd, notes):
     return '\n'.join(out)
 if __name__ == '__main__':
     import sys
-    print(table(int(sys.argv[1]), {'1': R1, '2': R2, '3': R3, '4': R4, '5': R5, '6': R6}[sys.argv[1]]))
+    print(table(int(sys.argv[1]), {'1': R1, '2': R2, '3': R3, '4': R4, '5': R5, '6': R6, '7': R7}[sys.argv[1]]))
